@@ -1,8 +1,9 @@
 #!/usr/bin/env python3
-"""One-off helper: writes the per-class theorems of lean/DoraModel/Props/C08Cls.inc (included text) from the
-field table below.  The table is a reading of the Arm ARM encoding diagrams (field position, width, register-31
-rule per operand) — NOT derived from arm64.rs; the proofs then check the translated code against it.
-Run by hand when a class is added:  python3 tools/gen_c08_props.py > /tmp/cls.lean  and paste into Props/C08.lean.
+"""One-off helper (NOT run by ./check): prints the per-class theorems that live in
+lean/DoraModel/Props/C08/Cls1..4.lean, from the field table below.  The table is a reading of the Arm ARM
+encoding diagrams (field position, width, register-31 rule per operand) — NOT derived from arm64.rs; the proofs
+then check the translated code against it.  Run by hand when a class encoder is added to arm64.rs:
+    python3 tools/gen_c08_props.py > /tmp/cls.lean      and paste the new theorem into one of the Cls files.
 """
 import sys
 
@@ -217,7 +218,7 @@ def gen():
         if cases:
             fns = ", ".join(sorted(set(f for _, f in cases)))
             tac = " <;> ".join("cases %s" % p for p, _ in cases) + \
-                  " <;> simp only [%s, bind_ok, pure_ok, ok_ok, ex_elim, ex_elim', throw, throwThe, MonadExceptOf.throw, reduceCtorEq, false_and, exists_false, and_false] at h ⊢ <;> bv_decide" % fns
+                  " <;> simp only [%s, bind_ok, pure_ok, ok_ok, ex_elim, ex_elim', ex_elim_r, throw, throwThe, MonadExceptOf.throw, reduceCtorEq, false_and, exists_false, and_false] at h ⊢ <;> bv_decide" % fns
         out.append("  " + tac)
         exargs = " ".join(EX[t] if p not in ("imm7", "imm9", "imm19", "imm14", "imm26") else "4294967295#32" for p, t in params)
         if name == "system":
